@@ -44,7 +44,13 @@ impl<R: Read> ZipStreamReader<R> {
         let end_signature;
         loop {
             match read_zipfile_or_end_from_stream(&mut self.0)? {
-                Ok(mut file) => visitor.visit_file(&mut file)?,
+                Ok(mut file) => {
+                    visitor.visit_file(&mut file)?;
+                    // Dropping the file would skip what the visitor left unread as well, but
+                    // silently: after a failed read the next header would be parsed from the
+                    // middle of this entry.
+                    file.skip_rest_of_streamed_entry()?;
+                }
                 Err(signature) => {
                     end_signature = signature;
                     break;
